@@ -37,20 +37,41 @@ pub fn gen_stored_value(t: &mut Tape) -> SVal {
             ]),
             _ => t.i64_biased(),
         }),
-        1 => SVal::S(match t.choose(6) {
+        1 => SVal::S(match t.choose(7) {
             0 => String::new(),
             1 => "plan-0".into(),
             2 => "2.0.0.0".into(),
             3 => "x".repeat(5000),
             4 => t.text(12),
+            5 => long_unicode(t, 600),
             _ => "{\"cohort\":{},\"user_counting\":{\"ClientRegulatedByDate\":null}}".into(),
         }),
         _ => SVal::B(t.flag()),
     }
 }
 
+/// long text mixing 1- to 4-byte characters (offsets of char boundaries are irregular)
+fn long_unicode(t: &mut Tape, max_chars: usize) -> String {
+    const A: &[char] = &['a', '\u{e9}', '\u{4e2d}', '\u{1f600}', ' ', '"', '\\', '{', '\u{7ff}', '\u{800}', 'z'];
+    let n = t.choose(max_chars + 1);
+    let pad = t.choose(4);
+    let mut s = "x".repeat(pad);
+    for _ in 0..n {
+        s.push(*t.pick(A));
+    }
+    s
+}
+
 pub fn gen_app_record(t: &mut Tape) -> SVal {
-    match t.choose(8) {
+    match t.choose(11) {
+        8 => SVal::S(long_unicode(t, 700)),
+        9 => {
+            // a once-valid record with non-ASCII cohort text, torn at an arbitrary character
+            let full = format!("{{\"cohort\":{{\"cohort\":\"1:3:\",\"cohortname\":\"{}\"}},\"user_counting\":{{\"ClientRegulatedByDate\":7}}}}", long_unicode(t, 500).replace(['"', '\\'], "_"));
+            let keep = t.choose(full.chars().count() + 1);
+            SVal::S(full.chars().take(keep).collect())
+        }
+        10 => SVal::S(format!("{{\"cohort\":{{\"cohortname\":\"{}\"}},\"user_counting\":{{\"ClientRegulatedByDate\":null}}}}", long_unicode(t, 400).replace(['"', '\\'], "_"))),
         0 => SVal::S("{".into()),
         1 => SVal::S("{\"cohort\":{\"cohort\":5},\"user_counting\":{\"ClientRegulatedByDate\":null}}".into()),
         2 => SVal::S("{\"cohort\":{\"cohort\":\"c\",\"cohorthint\":\"h\",\"cohortname\":\"n\"},\"user_counting\":{\"ClientRegulatedByDate\":4294967296}}".into()),
